@@ -243,6 +243,21 @@ def check_lis(rep, ix):
     src = _n(a)
     ok = f'self.rle_items.append(RLEItemType01({ps[1]},{ps[2]},{ps[3]}))' in src and f'notself.rle_items[-1].add({ps[1]},{ps[2]},{ps[3]})' in src
     rep.ob('R-C16-LIS', f'{LR}:RLEType01.add', '(position, frames, first X) triples are added in order, extending the last run or starting a new one', ok, node=a, module=m)
+    # the optional conversion function is applied to the position before the position is used at all (a run compares the
+    # converted datum with what it is given)
+    ga = cfgmod.CFG(a)
+    conv = [s_ for s_ in ga.stmts() if isinstance(s_, ast.Assign) and _n(s_.targets[0]) == ps[1] and _n(s_.value) == f'self.function({ps[1]})']
+    if conv:
+        holder = conv[0]
+        deps = [b for b, lab in ga.control_deps(holder) if isinstance(b, ast.If)]
+        own = [b for b in deps if 'self.function' in _n(b.test)]
+        anchor = own[-1] if own else holder
+        dom = ga.dominators()
+        users = [s_ for s_ in ga.stmts() if s_ is not holder and s_ is not anchor and any(isinstance(n, ast.Name) and n.id == ps[1] and isinstance(n.ctx, ast.Load) for n in
+                 (ast.walk(s_.test) if isinstance(s_, (ast.If, ast.While)) else ast.walk(s_)))]
+        early = [u for u in users if anchor not in dom.get(u, ())]
+        rep.ob('R-C16-LIS', f'{LR}:RLEType01.add', 'the position is converted before its first use', len(conv) == 1 and not early,
+               found='; '.join(_n(u)[:70] for u in early[:2]), required=f'`{ps[1]} = self.function({ps[1]})` ahead of every use', node=early[0] if early else a, module=m)
 
 
 def check_xml(rep, ix):
